@@ -502,6 +502,8 @@ func dequeConservationCase(c *mon.Case) {
 	ng := 2 + r.IntN(7)
 	per := 1000 + r.IntN(3000)
 	popped := make([][]int, ng)
+	var peeks atomic.Int64
+	defer func() { c.Count("deque_peeks_checked", peeks.Load()) }()
 	for g := 0; g < ng; g++ {
 		g := g
 		seed := r.Uint64()
@@ -524,8 +526,14 @@ func dequeConservationCase(c *mon.Case) {
 						popped[g] = append(popped[g], v)
 					}
 				default:
-					l.Peek()
-					l.PeekTail()
+					// what Peek/PeekTail report as present must be an element somebody pushed (never the zero value)
+					if v, ok := l.Peek(); ok && (v <= 0 || v/1_000_000 >= ng || v%1_000_000 > per) {
+						c.Violate("conservation", "deque-peek-foreign-value", "Peek returned (%d, true); no such element was ever pushed", v)
+					}
+					if v, ok := l.PeekTail(); ok && (v <= 0 || v/1_000_000 >= ng || v%1_000_000 > per) {
+						c.Violate("conservation", "deque-peek-foreign-value", "PeekTail returned (%d, true); no such element was ever pushed", v)
+					}
+					peeks.Add(2)
 					l.IsEmpty()
 				}
 			}
